@@ -1,18 +1,19 @@
 // C39, libFuzzer variant: the octets libFuzzer mutates are decoded into the same Case the rapidcheck harness
 // (c39_boot.cpp) generates and are judged by the very same run() -- reference memory, white list, checksum chain.
+// Built and run by engines/comp/run_fuzz.py (target kind 'fuzz' of ./check C39).
 //
-// The binary speaks the protocol of ./check (--property --seed --cases --out --opt, --replay <case file>):
-//   sweep : LLVMFuzzerRunDriver( -runs=<cases> -seed=<seed> -max_len=4096 ), in-memory corpus only; statistics, classes
-//           and the first violation go to the result file like those of a rapidcheck harness. A violation ends the run
-//           (exit 1, the decoded case is in the result); a sanitizer report / assert ends it through the crash path
-//           (<out>.crashcase holds the decoded case).
-//   replay: the text form of a case, exactly as c39_boot does (verif::run_main).
+// fuzz-extra-src: -lrapidcheck
+//
+// Environment (conventions of engines/comp/run_fuzz.py):
+//   VERIF_FUZZ_DECODE=1            print the decoded case of every input (replay format of ./check C39 --replay) instead of
+//                                  executing it
+//   VERIF_FUZZ_EXCLUDE=F-39a,...   shapes to leave out (open findings; the flags of c39_boot)
+// An oracle violation prints `VERIF-FUZZ-VIOLATION oracle=... sig={...} msg=...` and the decoded case, then traps;
+// sanitizer reports and asserts are crashes by themselves.
 #define C39_BOOT_NO_MAIN
 #include "c39_boot.cpp"
 
 #include <fuzzer/FuzzedDataProvider.h>
-
-extern "C" int LLVMFuzzerRunDriver( int* argc, char*** argv, int ( *callback )( const std::uint8_t* data, std::size_t size ) );
 
 namespace {
 
@@ -117,117 +118,44 @@ namespace {
         }
         return c;
     }
-
-    void finish( int code )
-    {
-        verif::write_result( code == 0 );
-        std::fflush( nullptr );
-        std::_Exit( code );
-    }
-
-    bool death_callback_set = false;
-
-    int one_input( const std::uint8_t* data, std::size_t size )
-    {
-        auto& S = verif::Session::get();
-        if ( !death_callback_set )
-        {
-            // after libFuzzer installed its own: a sanitizer report dumps the decoded case for ./check
-            __sanitizer_set_death_callback( &verif::detail::dump_current );
-            death_callback_set = true;
-        }
-        if ( S.max_seconds > 0 && std::chrono::duration< double >( std::chrono::steady_clock::now() - S.t0 ).count() > S.max_seconds )
-        {
-            ++S.skipped_time;
-            return 0;
-        }
-        const Case        c    = decode( data, size );
-        const std::string text = to_text( c );
-        verif::detail::set_current( text );
-        verif::Report r;
-        try
-        {
-            run( c, r );
-        }
-        catch ( const verif::failure& f )
-        {
-            S.have_failure = true;
-            S.fail_case    = text;
-            S.fail_info    = f;
-            std::cerr << "VIOLATION " << f.oracle << ": " << f.msg << "\n" << text;
-            finish( 1 );
-        }
-        ++S.evaluations;
-        if ( r.excluded )
-            ++S.excluded;
-        for ( auto& l : r.labels )
-            ++S.classes[ l ];
-        if ( r.nontrivial )
-        {
-            ++S.nontrivial_total;
-            ++S.classes[ "nontrivial" ];
-            if ( S.nontrivial.insert( verif::fnv1a( text ) ).second )
-            {
-                if ( S.samples.size() < 3 )
-                    S.samples.push_back( text );
-                else if ( text.size() > S.largest_sample.size() && text.size() < 6000 )
-                    S.largest_sample = text;
-            }
-        }
-        return 0;
-    }
 }
 
-int main( int argc, char** argv )
+namespace {
+    bool decode_only = false;
+}
+
+extern "C" int LLVMFuzzerInitialize( int*, char*** )
 {
-    for ( int i = 1; i < argc; ++i )
-        if ( std::string( argv[ i ] ) == "--replay" )
-        {
-            verif::Harness< Case > h;
-            h.gen       = gen_case;
-            h.to_text   = to_text;
-            h.from_text = from_text;
-            h.run       = run;
-            return verif::run_main( argc, argv, h );
-        }
+    decode_only = std::getenv( "VERIF_FUZZ_DECODE" ) != nullptr;
+    if ( const char* e = std::getenv( "VERIF_FUZZ_EXCLUDE" ) )
+        verif::Session::get().opts[ "exclude" ] = e;
+    verif::Session::get().property = "C39";
+    return 0;
+}
 
-    auto& S = verif::Session::get();
-    for ( int i = 1; i < argc; ++i )
+extern "C" int LLVMFuzzerTestOneInput( const std::uint8_t* data, std::size_t size )
+{
+    const Case c = decode( data, size );
+    if ( decode_only )
     {
-        const std::string a    = argv[ i ];
-        auto              next = [&]() -> std::string { return i + 1 < argc ? argv[ ++i ] : ""; };
-        if ( a == "--property" ) S.property = next();
-        else if ( a == "--seed" ) S.seed = std::strtoull( next().c_str(), nullptr, 0 );
-        else if ( a == "--cases" ) S.cases = std::strtoull( next().c_str(), nullptr, 0 );
-        else if ( a == "--size" ) S.size = std::strtoull( next().c_str(), nullptr, 0 );
-        else if ( a == "--max-seconds" ) S.max_seconds = std::strtod( next().c_str(), nullptr );
-        else if ( a == "--out" ) S.out = next();
-        else if ( a == "--opt" )
-        {
-            const std::string kv = next();
-            const auto        p  = kv.find( '=' );
-            S.opts[ kv.substr( 0, p ) ] = p == std::string::npos ? "1" : kv.substr( p + 1 );
-        }
+        // libFuzzer executes a file given on the command line more than once
+        static std::string last;
+        const std::string  text = to_text( c );
+        if ( text != last )
+            std::cout << text << std::flush;
+        last = text;
+        return 0;
     }
-    if ( !S.out.empty() )
+    verif::Report r;
+    try
     {
-        std::snprintf( verif::detail::crash_path(), 1024, "%s.crashcase", S.out.c_str() );
-        ::unlink( verif::detail::crash_path() );
+        run( c, r );
     }
-    std::signal( SIGABRT, &verif::detail::on_signal );
-    std::signal( SIGSEGV, &verif::detail::on_signal );
-    std::signal( SIGFPE, &verif::detail::on_signal );
-    std::signal( SIGILL, &verif::detail::on_signal );
-    std::signal( SIGBUS, &verif::detail::on_signal );
-
-    std::vector< std::string > args = { argv[ 0 ], verif::cat( "-runs=", S.cases ), verif::cat( "-seed=", S.seed == 0 ? 1 : S.seed ), "-max_len=4096", "-len_control=0",
-        "-handle_abrt=0", "-handle_segv=0", "-handle_bus=0", "-handle_ill=0", "-handle_fpe=0", "-print_final_stats=0", "-verbosity=0", "-detect_leaks=0" };
-    std::vector< char* > cargs;
-    for ( auto& s : args )
-        cargs.push_back( &s[ 0 ] );
-    cargs.push_back( nullptr );
-    int    fargc = static_cast< int >( args.size() );
-    char** fargv = cargs.data();
-    LLVMFuzzerRunDriver( &fargc, &fargv, &one_input );
-    finish( 0 );
+    catch ( const verif::failure& f )
+    {
+        std::cerr << "VERIF-FUZZ-VIOLATION oracle=" << f.oracle << " sig={" << f.sig << "} msg=" << f.msg << "\n"
+                  << "VERIF-FUZZ-CASE-BEGIN\n" << to_text( c ) << "VERIF-FUZZ-CASE-END\n" << std::flush;
+        __builtin_trap();
+    }
+    return 0;
 }
